@@ -12,9 +12,9 @@ import (
 	"net"
 	"net/http"
 	"net/url"
+	"slices"
 	"sort"
 	"strconv"
-	"slices"
 	"strings"
 	"sync"
 	"testing"
@@ -56,12 +56,12 @@ type cfAPI struct {
 	zones []*cfZone
 	log   []cfReq
 	// failures: key -> kind ("http403", "http404", "notsuccess", "http500")
-	fail  map[string]string
+	fail map[string]string
 	// onPatch, when set, runs when a PATCH request arrives (before it is answered)
 	onPatch func(recID string)
 	token   string
-	srv   *http.Server
-	url   url.URL
+	srv     *http.Server
+	url     url.URL
 }
 
 func newCFAPI() (*cfAPI, error) {
@@ -693,7 +693,6 @@ func seenZones(ts []publish.Target) map[string]bool {
 }
 
 var _ = sort.Strings
-
 
 // TestC20Cancel: the caller's context ends while a record is being written. Whatever
 // the statuses then are, the call still returns exactly one result per requested
